@@ -139,7 +139,7 @@ Qed.
 
 Lemma it_snext_lift : forall i ctx its p r, norec_it i = true -> envok ctx -> LiftN (it_snext toks spn run i ctx its p) r.
 Proof.
-  induction i as [a lo hi|a sep lo hi lead trail|j IHj|f j IHj|f j IHj|a|a lo hi ck];
+  induction i as [a lo hi|a sep lo hi lead trail|j IHj|f j IHj|f j IHj|a|a lo hi ck|a];
     intros ctx its p r Hn He x its' r' Hr H; cbn [it_snext] in H |- *; cbn [norec_it] in Hn.
   - destruct its; try discriminate.
     destruct (rep_snext run a lo hi ctx n p r) as [[[x0 c'] r0]|] eqn:E; [|discriminate]. injection H as <- <- <-.
@@ -160,12 +160,17 @@ Proof.
   - destruct its; try discriminate. destruct b; [injection H as <- <- <-; auto|].
     destruct (run a ctx p r) as [[[[[v1 p1] e1]|] r1]|] eqn:E; try discriminate; destruct (HL _ _ _ _ _ _ Hn He Hr E) as (W & Lf);
       injection H as <- <- <-; (split; auto); intros b Hb; now rewrite (Lf b Hb).
-  - destruct its as [c|k js|b|c clo chi|k]; try discriminate.
+  - destruct its as [c|k js|b|c clo chi|k|o]; try discriminate.
     + destruct (rep_snext run a clo chi ctx c p r) as [[[x0 c'] r0]|] eqn:E; [|discriminate]. injection H as <- <- <-.
       destruct (rep_snext_lift a clo chi ctx c p r Hn He _ _ _ Hr E) as (W & Lf). split; auto. intros b Hb. now rewrite (Lf b Hb).
     + destruct (run (TryMap PFalse FId k Empty) ctx p r) as [[[?|] r1]|] eqn:E; try discriminate.
       destruct (HL _ _ _ _ _ _ (eq_refl : norec (TryMap PFalse FId k Empty) = true) He Hr E) as (W & Lf).
       injection H as <- <- <-. split; auto. intros b Hb. now rewrite (Lf b Hb).
+  - destruct its as [| | | | |[l|]]; try discriminate.
+    + destruct l; injection H as <- <- <-; auto.
+    + destruct (run a ctx p r) as [[[[[v1 p1] e1]|] r1]|] eqn:E; try discriminate; destruct (HL _ _ _ _ _ _ Hn He Hr E) as (W & Lf).
+      * destruct (val_items v1) eqn:Ev; injection H as <- <- <-; (split; auto); intros b Hb; rewrite (Lf b Hb), ?Ev; reflexivity.
+      * injection H as <- <- <-. split; auto. intros b Hb. now rewrite (Lf b Hb).
 Qed.
 
 Lemma sdrive_lift : forall fuel i ctx its lim acc acce p r o r', norec_it i = true -> envok ctx -> wfr r ->
@@ -396,8 +401,8 @@ Proof.
     destruct (sdrive_lift _ IH _ _ _ _ _ _ _ _ _ _ _ Hn He Hr E) as (W & Lf).
     destruct ox as [[[[its fl] p1] e1]|]; injection H as <- <-; (split; auto); intros a Ha; cbn [Sem.sem]; now rewrite (Lf a Ha).
   - (* CollectExactly *)
-    destruct n0 as [|k0]; [destruct (its_fail (mk_iter i ctx)) as [e0|] eqn:Ef|].
-    { destruct (IH _ _ _ _ _ _ (eq_refl : norec (TryMap PFalse FId e0 Empty) = true) He Hr H) as (W & Lf). split; auto.
+    destruct n0 as [|k0]; [destruct (it_eager i ctx) as [e0|] eqn:Ef|].
+    { destruct (IH _ _ _ _ _ _ (it_eager_norec _ _ _ Hn Ef) He Hr H) as (W & Lf). split; auto.
       intros a Ha. cbn [Sem.sem]. rewrite Ef. exact (Lf a Ha). }
     all: match type of H with context [sdrive ?tk ?sp ?rn ?f ?i0 ?c0 ?st ?lim [] [] ?p0 ?r0] =>
       destruct (sdrive tk sp rn f i0 c0 st lim [] [] p0 r0) as [[ox r1]|] eqn:E; [|discriminate] end;
